@@ -20,8 +20,16 @@ produced by `settings_by_index` for canonical TLV types; for such pairs the mode
 out-of-domain marker (the real code raises TypeError/AttributeError/ValueError there or prints a Python repr).
 Text settings: the loop starts with `if isinstance(value, str): value = value.encode("latin-1")`, so every `str` pretty
 value (`PVal.str`, latin-1 text = `Bytes`) reaches `value_to_string` as `bytes` (`C12.valueToString`: everything escaped);
-only the `str` objects the code makes itself (constants, `"X" * n`, the execute `val`) take the `str` path
-(`C12.valueToStringStr`: `"` escaped, nothing else).
+only the `str` objects the code makes itself (constants, `"X" * n`) take the `str` path (`C12.valueToStringStr`: `"`
+escaped, nothing else — harmless for those fixed texts).
+Execute items: `parse_execute_list` decodes module and function names as UTF-8 and the generator hands the quoted part
+back as `val[1:-1].encode()` (UTF-8).  An execute item is therefore modelled as the UTF-8 encoding of the Python `str`
+(= the bytes of the configuration; the harness feeds exactly those bytes).  On that representation `" " in item`,
+`item.partition(" ")`, `==` with ASCII names and `.lower()` of ASCII names are the byte-level operations, `.encode()` is
+the identity, and `val[1:-1]` (first and last *character* dropped) is the byte slice `[1:-1]` because the first and last
+character of `val` are the one-byte quotes `parse_execute_list` writes (`wfExecItem` requires them).  Byte strings that are
+not valid UTF-8 denote no `str` (`parse_execute_list` raises UnicodeDecodeError there: C03's subject); the theorems hold
+for them as statements about the model only.
 Python `str` is latin-1 text (`Bytes`); `str.lower()` is modelled on ASCII (all names it is applied to are ASCII
 identifiers of the package).  Trees are Lark trees with *string* labels (`Option Bytes`: `None` is a possible dict key
 of `block_steps`); `intern` maps them to the interned trees of the C10 model.
@@ -279,16 +287,17 @@ def execEnable : List Bytes :=
   [b "CreateThread", b "SetThreadContext", b "CreateRemoteThread", b "NtQueueApcThread", b "NtQueueApcThread-s",
    b "NtQueueApcThread_s", b "RtlCreateUserThread"]
 
-/-- the body of `for item in value:`; `None` items raise TypeError at `" " in item` -/
+/-- the body of `for item in value:`; `None` items raise TypeError at `" " in item`.  Items are UTF-8 bytes (see the
+header); `val = val[1:-1].encode()` is a `bytes` object, so the literal is written by the bytes path -/
 def execItem : Option Bytes → Py PForest
   | Option.none => .error .typeError
   | some item =>
     let special : PForest :=
       if item.contains 32 then
         let p := partition2 [32] item
-        let val := pySliceTo (pySliceFrom p.2 1) (some (-1))          -- val[1:-1]
-        if p.1 = b "CreateThread" then stmt (b "createthread_special") [C12.valueToStringStr val]
-        else if p.1 = b "CreateRemoteThread" then stmt (b "createremotethread_special") [C12.valueToStringStr val]
+        let val := pySliceTo (pySliceFrom p.2 1) (some (-1))          -- val[1:-1].encode()
+        if p.1 = b "CreateThread" then stmt (b "createthread_special") [C12.valueToString val]
+        else if p.1 = b "CreateRemoteThread" then stmt (b "createremotethread_special") [C12.valueToString val]
         else .nil
       else .nil
     let enable : PForest :=
@@ -884,15 +893,15 @@ def wfProgram (allowed : List Bytes) (prog : List TStep) : Bool :=
 
 def gateLabels : List Bytes := Gen.ProfileGen.gateNames.map fun p => ofText p.1
 
-/-- execute items: a known name, or `CreateThread "…"` / `CreateRemoteThread "…"` whose quoted part has no backslash:
-`val` is handed to `value_to_string` as a `str`, which escapes `"` only (finding `C13-execute-special-backslash`) -/
+/-- execute items as `parse_execute_list` writes them: a known name, or `CreateThread "<text>"` /
+`CreateRemoteThread "<text>"` with ANY text between the quotes (backslashes, quotes, control characters, non-ASCII) -/
 def wfExecItem : Option Bytes → Bool
   | Option.none => false
   | some s =>
-    noBackslash s &&
-    (execEnable.contains s ||
+    execEnable.contains s ||
       (let p := partition2 [32] s
-       s.contains 32 && (p.1 = k "CreateThread" || p.1 = k "CreateRemoteThread") && 2 ≤ p.2.length))
+       s.contains 32 && (p.1 = k "CreateThread" || p.1 = k "CreateRemoteThread") &&
+         (p.2.head? == some 34 && p.2.getLast? == some 34 && 2 ≤ p.2.length))
 
 /-- what a branch requires of its value (`config.uris` is unrestricted: any text, `None` entries allowed) -/
 def wfAct : Act → PVal → Bool
